@@ -1209,6 +1209,12 @@ type c07Comb struct {
 	result map[ssa.Value]bool // the accumulated (returned) maps
 	key    ssa.Value          // the key of the entries being merged
 	disj   bool
+	// bindings made where an in-package helper is entered (the helper's
+	// parameters / free variables stand for what the call hands them)
+	class map[ssa.Value]int        // map-typed value -> 0 accumulated / 1 operand's restrictions
+	keys  map[ssa.Value]bool       // values that are the key being merged
+	ptrs  map[ssa.Value]*ssa.Alloc // pointer-typed values -> the local they point to
+	stack []*ssa.Function          // helpers being executed (innermost last)
 	// per path
 	allocs  map[*ssa.Alloc][]c07Sym
 	vals    map[ssa.Value]c07Sym
@@ -1216,6 +1222,200 @@ type c07Comb struct {
 	conds   []func(env uint32) bool
 	trail   []string
 	problem string
+}
+
+func c07NewComb(fn *ssa.Function, st *types.Struct, result map[ssa.Value]bool, disj bool, class map[ssa.Value]int) *c07Comb {
+	cb := &c07Comb{fn: fn, st: st, nf: st.NumFields(), result: result, disj: disj,
+		class: map[ssa.Value]int{}, keys: map[ssa.Value]bool{}, ptrs: map[ssa.Value]*ssa.Alloc{},
+		allocs: map[*ssa.Alloc][]c07Sym{}, vals: map[ssa.Value]c07Sym{}, pred: map[*ssa.BasicBlock]*ssa.BasicBlock{}}
+	for k, v := range class {
+		cb.class[k] = v
+	}
+	return cb
+}
+
+// allocOf: the local variable a pointer-typed value designates (the Alloc
+// itself, or a helper's parameter / free variable bound to one).
+func (cb *c07Comb) allocOf(v ssa.Value) *ssa.Alloc {
+	if al, ok := v.(*ssa.Alloc); ok {
+		return al
+	}
+	return cb.ptrs[v]
+}
+
+// storesTo lists the values stored directly into local al.
+func c07StoresTo(al *ssa.Alloc) []ssa.Value {
+	var out []ssa.Value
+	if al.Referrers() == nil {
+		return nil
+	}
+	for _, r := range *al.Referrers() {
+		if st, ok := r.(*ssa.Store); ok && st.Addr == ssa.Value(al) {
+			out = append(out, st.Val)
+		}
+	}
+	return out
+}
+
+// isKey: v is the label (map key) of the entries being merged.
+func (cb *c07Comb) isKey(v ssa.Value) bool { return cb.isKeyN(v, 0) }
+
+func (cb *c07Comb) isKeyN(v ssa.Value, depth int) bool {
+	if v == cb.key || cb.keys[v] {
+		return true
+	}
+	if depth > 4 {
+		return false
+	}
+	switch x := v.(type) {
+	case *ssa.UnOp:
+		// a local (e.g. captured by a closure) that only ever holds the key
+		if al := cb.allocOf(x.X); x.Op == token.MUL && al != nil {
+			vals := c07StoresTo(al)
+			for _, sv := range vals {
+				if !cb.isKeyN(sv, depth+1) {
+					return false
+				}
+			}
+			return len(vals) > 0
+		}
+	case *ssa.ChangeType:
+		return cb.isKeyN(x.X, depth+1)
+	}
+	return false
+}
+
+// inPkgHelper: the static callee of call when it is a function of the analysed
+// package with a body that is not being executed already.
+func (cb *c07Comb) inPkgHelper(call *ssa.Call) *ssa.Function {
+	g := calleeFn(call.Common())
+	if g == nil || g.Blocks == nil || g.Pkg == nil || g.Pkg != c07PkgOf(cb.fn) || g == cb.fn || len(cb.stack) >= 4 {
+		return nil
+	}
+	for _, f := range cb.stack {
+		if f == g {
+			return nil
+		}
+	}
+	return g
+}
+
+func c07PkgOf(f *ssa.Function) *ssa.Package {
+	for f.Parent() != nil {
+		f = f.Parent()
+	}
+	return f.Pkg
+}
+
+func c07HasLoop(g *ssa.Function) bool {
+	for _, b := range g.Blocks {
+		if blockReach(b)[b] {
+			return true
+		}
+	}
+	return false
+}
+
+// relevantType: a restriction, a pointer to one, or a map of restrictions.
+func (cb *c07Comb) relevantType(t types.Type) bool {
+	if cb.isRestr(t) {
+		return true
+	}
+	if m, ok := t.Underlying().(*types.Map); ok {
+		return cb.isRestr(m.Elem())
+	}
+	return false
+}
+
+// inlinable: the helper is executed as part of the path when it handles
+// restrictions (takes or returns a restriction / restriction map, or captures
+// one), or when it is a loop-free computation on bools and lists; anything else
+// keeps the opaque model of eval (a list computed from its list arguments).
+func (cb *c07Comb) inlinable(call *ssa.Call) *ssa.Function {
+	g := cb.inPkgHelper(call)
+	if g == nil {
+		return nil
+	}
+	touches := false
+	sig := g.Signature
+	for i := 0; i < sig.Params().Len(); i++ {
+		touches = touches || cb.relevantType(sig.Params().At(i).Type())
+	}
+	for i := 0; i < sig.Results().Len(); i++ {
+		touches = touches || cb.relevantType(sig.Results().At(i).Type())
+	}
+	if sig.Recv() != nil && cb.relevantType(sig.Recv().Type()) {
+		touches = true
+	}
+	for _, fv := range g.FreeVars {
+		if pt, ok := fv.Type().Underlying().(*types.Pointer); ok && cb.relevantType(pt.Elem()) {
+			touches = true
+		}
+	}
+	if touches {
+		return g
+	}
+	if c07HasLoop(g) || sig.Results().Len() != 1 || len(call.Common().Args) == 0 {
+		return nil
+	}
+	simple := func(t types.Type) bool {
+		switch u := t.Underlying().(type) {
+		case *types.Basic:
+			return u.Info()&types.IsBoolean != 0
+		case *types.Slice:
+			return true
+		}
+		return false
+	}
+	if !simple(sig.Results().At(0).Type()) {
+		return nil
+	}
+	for i := 0; i < sig.Params().Len(); i++ {
+		if !simple(sig.Params().At(i).Type()) {
+			return nil
+		}
+	}
+	return g
+}
+
+// enter binds the parameters and free variables of helper g to what the call hands them.
+func (cb *c07Comb) enter(g *ssa.Function, call *ssa.Call) {
+	bind := func(p, a ssa.Value) {
+		delete(cb.class, p)
+		delete(cb.keys, p)
+		delete(cb.ptrs, p)
+		delete(cb.vals, p)
+		if cb.isKey(a) {
+			cb.keys[p] = true
+			return
+		}
+		if cl := cb.classifyMap(a); cl >= 0 {
+			cb.class[p] = cl
+			return
+		}
+		if _, isPtr := a.Type().Underlying().(*types.Pointer); isPtr {
+			if al := cb.allocOf(a); al != nil {
+				cb.ptrs[p] = al
+			}
+			return
+		}
+		if s := cb.eval(a); s.kind != "unknown" {
+			cb.vals[p] = s
+		}
+	}
+	args := call.Common().Args
+	for i, p := range g.Params {
+		if i < len(args) {
+			bind(p, args[i])
+		}
+	}
+	if mc, ok := call.Common().Value.(*ssa.MakeClosure); ok {
+		for i, fv := range g.FreeVars {
+			if i < len(mc.Bindings) {
+				bind(fv, mc.Bindings[i])
+			}
+		}
+	}
 }
 
 func (cb *c07Comb) atom(entry, field int) uint32 { return 1 << uint(entry*cb.nf+field) }
@@ -1269,12 +1469,51 @@ func (cb *c07Comb) isRestr(t types.Type) bool {
 }
 
 // classifyMap: 0 = accumulated, 1 = an operand's restrictions, -1 = something else.
-func (cb *c07Comb) classifyMap(m ssa.Value) int {
+func (cb *c07Comb) classifyMap(m ssa.Value) int { return cb.classifyMapN(m, 0) }
+
+func (cb *c07Comb) classifyMapN(m ssa.Value, depth int) int {
+	if cl, ok := cb.class[m]; ok {
+		return cl
+	}
 	if cb.result[m] {
 		return 0
 	}
 	if call, ok := m.(*ssa.Call); ok && call.Common().IsInvoke() && call.Common().Method.Name() == "LabelRestrictions" {
 		return 1
+	}
+	if _, isMap := m.Type().Underlying().(*types.Map); !isMap || depth > 4 {
+		return -1
+	}
+	all := func(vals []ssa.Value) int {
+		cls := -2
+		for _, v := range vals {
+			c := cb.classifyMapN(v, depth+1)
+			if cls != -2 && c != cls {
+				return -1
+			}
+			cls = c
+		}
+		if cls == -2 {
+			return -1
+		}
+		return cls
+	}
+	switch x := m.(type) {
+	case *ssa.UnOp:
+		// a map kept in a local variable (address taken, e.g. captured by a closure)
+		if al := cb.allocOf(x.X); x.Op == token.MUL && al != nil {
+			return all(c07StoresTo(al))
+		}
+	case *ssa.Phi:
+		var vals []ssa.Value
+		for _, e := range x.Edges {
+			if e != ssa.Value(x) {
+				vals = append(vals, e)
+			}
+		}
+		return all(vals)
+	case *ssa.ChangeType:
+		return cb.classifyMapN(x.X, depth+1)
 	}
 	return -1
 }
@@ -1354,13 +1593,16 @@ func (cb *c07Comb) eval(v ssa.Value) c07Sym {
 			return s.fields[x.Field]
 		}
 	case *ssa.Lookup:
-		if cb.isRestr(x.Type()) && !x.CommaOk && x.Index == cb.key {
+		if cb.isRestr(x.Type()) && !x.CommaOk && cb.isKey(x.Index) {
 			if e := cb.classifyMap(x.X); e >= 0 {
 				return cb.entrySym(e)
 			}
 		}
 	case *ssa.Extract:
-		if lk, ok := x.Tuple.(*ssa.Lookup); ok && lk.CommaOk && x.Index == 0 && cb.isRestr(x.Type()) && lk.Index == cb.key {
+		if t, ok := cb.vals[x.Tuple]; ok && t.kind == "tuple" && x.Index < len(t.fields) {
+			return t.fields[x.Index]
+		}
+		if lk, ok := x.Tuple.(*ssa.Lookup); ok && lk.CommaOk && x.Index == 0 && cb.isRestr(x.Type()) && cb.isKey(lk.Index) {
 			// v, ok := m[k]: v is the entry, or the zero value when absent (all atoms false)
 			if e := cb.classifyMap(lk.X); e >= 0 {
 				return cb.entrySym(e)
@@ -1403,8 +1645,17 @@ func (cb *c07Comb) step(in ssa.Instruction) {
 			cb.allocs[x] = cb.zeroSym().fields
 		}
 	case *ssa.Store:
-		switch a := x.Addr.(type) {
-		case *ssa.Alloc:
+		if fa, ok := x.Addr.(*ssa.FieldAddr); ok {
+			if al := cb.allocOf(fa.X); al != nil {
+				if fs, ok := cb.allocs[al]; ok && fa.Field < len(fs) {
+					nfs := append([]c07Sym(nil), fs...)
+					nfs[fa.Field] = cb.eval(x.Val)
+					cb.allocs[al] = nfs
+				}
+			}
+			return
+		}
+		if a := cb.allocOf(x.Addr); a != nil {
 			if _, ok := cb.allocs[a]; ok || cb.isRestr(a.Type()) {
 				s := cb.eval(x.Val)
 				if s.kind == "struct" {
@@ -1417,29 +1668,22 @@ func (cb *c07Comb) step(in ssa.Instruction) {
 					cb.allocs[a] = fs
 				}
 			}
-		case *ssa.FieldAddr:
-			if al, ok := a.X.(*ssa.Alloc); ok {
-				if fs, ok := cb.allocs[al]; ok && a.Field < len(fs) {
-					nfs := append([]c07Sym(nil), fs...)
-					nfs[a.Field] = cb.eval(x.Val)
-					cb.allocs[al] = nfs
-				}
-			}
 		}
 	case *ssa.UnOp:
 		if x.Op != token.MUL {
 			return
 		}
-		switch a := x.X.(type) {
-		case *ssa.Alloc:
+		if fa, ok := x.X.(*ssa.FieldAddr); ok {
+			if al := cb.allocOf(fa.X); al != nil {
+				if fs, ok := cb.allocs[al]; ok && fa.Field < len(fs) {
+					cb.vals[x] = fs[fa.Field]
+				}
+			}
+			return
+		}
+		if a := cb.allocOf(x.X); a != nil {
 			if fs, ok := cb.allocs[a]; ok {
 				cb.vals[x] = c07Sym{kind: "struct", fields: fs, desc: a.Comment}
-			}
-		case *ssa.FieldAddr:
-			if al, ok := a.X.(*ssa.Alloc); ok {
-				if fs, ok := cb.allocs[al]; ok && a.Field < len(fs) {
-					cb.vals[x] = fs[a.Field]
-				}
 			}
 		}
 	}
@@ -1533,7 +1777,10 @@ func (cb *c07Comb) trailText() string {
 // run walks every acyclic path of the loop body that starts at nx (one
 // iteration of `for k, v := range <map>`), judging what is written to the
 // accumulated map; an iteration that writes nothing leaves the accumulated
-// entry in place.
+// entry in place.  A call of an in-package helper that handles restrictions is
+// executed as part of the path (its parameters bound to the call's arguments,
+// the caller resumed at each of its returns), so the merge may be computed —
+// and the accumulated map written — by helpers.
 func (cb *c07Comb) run(nx *ssa.Next, rangedEntry int) []c07CombFinding {
 	var out []c07CombFinding
 	seen := map[string]bool{}
@@ -1559,43 +1806,74 @@ func (cb *c07Comb) run(nx *ssa.Next, rangedEntry int) []c07CombFinding {
 	}
 	nPaths := 0
 	onPath := map[*ssa.BasicBlock]bool{head: true}
-	var walk func(b *ssa.BasicBlock, written bool)
-	walk = func(b *ssa.BasicBlock, written bool) {
+	endIter := func(written bool) {
+		nPaths++
+		if !written && rangedEntry == 0 && cb.disj {
+			// the accumulated entry stays as it was
+			add(cb.judge(cb.entrySym(0), "left in the accumulated map unchanged"))
+		}
+	}
+	copyVals := func() map[ssa.Value]c07Sym {
+		m := make(map[ssa.Value]c07Sym, len(cb.vals)+4)
+		for k, v := range cb.vals {
+			m[k] = v
+		}
+		return m
+	}
+	// exec runs block b from instruction idx on; k is what happens when the
+	// function b belongs to returns (top level: the iteration ends).
+	var exec func(b *ssa.BasicBlock, idx int, written bool, k func(written bool, ret c07Sym))
+	exec = func(b *ssa.BasicBlock, idx int, written bool, k func(written bool, ret c07Sym)) {
 		if nPaths > 5000 {
 			return
 		}
-		endIter := func() {
-			nPaths++
-			if !written && rangedEntry == 0 && cb.disj {
-				// the accumulated entry stays as it was
-				add(cb.judge(cb.entrySym(0), "left in the accumulated map unchanged"))
+		if idx == 0 {
+			if b == head {
+				endIter(written)
+				return
 			}
+			if onPath[b] {
+				add([]c07CombFinding{{field: -1, unsure: true, text: "nested loop in the merge loop body"}})
+				return
+			}
+			onPath[b] = true
+			savedAllocs, savedVals := cb.allocs, cb.vals
+			cb.allocs = map[*ssa.Alloc][]c07Sym{}
+			for k, v := range savedAllocs {
+				cb.allocs[k] = v
+			}
+			cb.vals = copyVals()
+			defer func() { onPath[b] = false; cb.allocs, cb.vals = savedAllocs, savedVals }()
 		}
-		if b == head {
-			endIter()
-			return
-		}
-		if onPath[b] {
-			add([]c07CombFinding{{field: -1, unsure: true, text: "nested loop in the merge loop body"}})
-			return
-		}
-		onPath[b] = true
-		savedAllocs, savedVals := cb.allocs, cb.vals
-		cb.allocs = map[*ssa.Alloc][]c07Sym{}
-		for k, v := range savedAllocs {
-			cb.allocs[k] = v
-		}
-		cb.vals = map[ssa.Value]c07Sym{}
-		for k, v := range savedVals {
-			cb.vals[k] = v
-		}
-		defer func() { onPath[b] = false; cb.allocs, cb.vals = savedAllocs, savedVals }()
-		for _, in := range b.Instrs {
+		for i := idx; i < len(b.Instrs); i++ {
+			in := b.Instrs[i]
+			if call, ok := in.(*ssa.Call); ok {
+				if g := cb.inlinable(call); g != nil {
+					cb.enter(g, call)
+					outer := cb.stack
+					cb.stack = append(append([]*ssa.Function(nil), outer...), g)
+					resume := i + 1
+					exec(g.Blocks[0], 0, written, func(w bool, ret c07Sym) {
+						inner, innerVals, innerAllocs := cb.stack, cb.vals, cb.allocs
+						cb.stack = outer
+						cb.vals = copyVals()
+						cb.vals[call] = ret
+						cb.allocs = map[*ssa.Alloc][]c07Sym{}
+						for k, v := range innerAllocs {
+							cb.allocs[k] = v
+						}
+						exec(b, resume, w, k)
+						cb.stack, cb.vals, cb.allocs = inner, innerVals, innerAllocs
+					})
+					cb.stack = outer
+					return
+				}
+			}
 			cb.step(in)
 			switch x := in.(type) {
 			case *ssa.MapUpdate:
-				if cb.result[x.Map] {
-					if x.Key != cb.key {
+				if cb.classifyMap(x.Map) == 0 {
+					if !cb.isKey(x.Key) {
 						add([]c07CombFinding{{field: -1, unsure: true, text: "the accumulated map is written under a key other than the one being merged"}})
 					} else {
 						add(cb.judge(cb.eval(x.Value), "written to the accumulated map"))
@@ -1603,10 +1881,20 @@ func (cb *c07Comb) run(nx *ssa.Next, rangedEntry int) []c07CombFinding {
 					written = true
 				}
 			case *ssa.Return:
-				endIter()
+				ret := c07Unknown()
+				switch {
+				case len(x.Results) == 1:
+					ret = cb.eval(x.Results[0])
+				case len(x.Results) > 1:
+					ret = c07Sym{kind: "tuple", desc: "results"}
+					for _, r := range x.Results {
+						ret.fields = append(ret.fields, cb.eval(r))
+					}
+				}
+				k(written, ret)
 				return
 			default:
-				if dc, ok := isBuiltinCall(in, "delete"); ok && cb.result[dc.Args[0]] && dc.Args[1] == cb.key {
+				if dc, ok := isBuiltinCall(in, "delete"); ok && cb.classifyMap(dc.Args[0]) == 0 && cb.isKey(dc.Args[1]) {
 					written = true
 				}
 			}
@@ -1614,7 +1902,7 @@ func (cb *c07Comb) run(nx *ssa.Next, rangedEntry int) []c07CombFinding {
 		follow := func(s *ssa.BasicBlock) {
 			old, had := cb.pred[s]
 			cb.pred[s] = b
-			walk(s, written)
+			exec(s, 0, written, k)
 			if had {
 				cb.pred[s] = old
 			} else {
@@ -1646,9 +1934,175 @@ func (cb *c07Comb) run(nx *ssa.Next, rangedEntry int) []c07CombFinding {
 		}
 	}
 	cb.pred[head.Succs[0]] = head
-	walk(head.Succs[0], false)
+	exec(head.Succs[0], 0, false, func(w bool, _ c07Sym) { endIter(w) })
 	if nPaths == 0 || nPaths > 5000 {
 		out = append(out, c07CombFinding{field: -1, unsure: true, text: fmt.Sprintf("merge loop body has %d paths", nPaths)})
 	}
+	return out
+}
+
+// ---- helpers of c07Combine that look through in-package helpers ----
+
+// c07ReturnsOperandMap: call is a static call of an in-package function every
+// result of which is a fresh map, nil, an operand's LabelRestrictions() or the
+// result of another such function.
+func c07ReturnsOperandMap(call *ssa.Call, depth int) bool {
+	g := calleeFn(call.Common())
+	if g == nil || g.Blocks == nil || depth > 2 || call.Parent() == nil || g.Pkg != c07PkgOf(call.Parent()) {
+		return false
+	}
+	n := 0
+	for _, ret := range returnsOf(g) {
+		if len(ret.Results) != 1 {
+			return false
+		}
+		for _, o := range origins(ret.Results[0], nil) {
+			switch x := o.V.(type) {
+			case *ssa.Const:
+				if x.Value != nil {
+					return false
+				}
+			case *ssa.MakeMap:
+				n++
+			case *ssa.Call:
+				if x.Common().IsInvoke() && x.Common().Method.Name() == "LabelRestrictions" {
+					n++
+				} else if c07ReturnsOperandMap(x, depth+1) {
+					n++
+				} else {
+					return false
+				}
+			default:
+				return false
+			}
+		}
+	}
+	return n > 0
+}
+
+type c07Host struct {
+	fn    *ssa.Function
+	class map[ssa.Value]int
+}
+
+// c07CombHosts: LabelRestrictions itself plus the in-package helpers (up to two
+// calls down) that are handed the accumulated map, with their map-typed
+// parameters classified from the call's arguments.
+func c07CombHosts(lr *ssa.Function, st *types.Struct, result map[ssa.Value]bool, disj bool) []c07Host {
+	hosts := []c07Host{{lr, nil}}
+	seen := map[*ssa.Function]bool{lr: true}
+	level := hosts
+	for depth := 0; depth < 2 && len(level) > 0; depth++ {
+		var next []c07Host
+		for _, h := range level {
+			cb := c07NewComb(h.fn, st, result, disj, h.class)
+			cb.fn = lr // package test
+			allInstrs(h.fn, false, func(_ *ssa.Function, in ssa.Instruction) {
+				call, ok := in.(*ssa.Call)
+				if !ok {
+					return
+				}
+				g := cb.inPkgHelper(call)
+				if g == nil || seen[g] {
+					return
+				}
+				class := map[ssa.Value]int{}
+				has0 := false
+				for i, a := range call.Common().Args {
+					if i >= len(g.Params) {
+						break
+					}
+					if cl := cb.classifyMap(a); cl >= 0 {
+						class[g.Params[i]] = cl
+						has0 = has0 || cl == 0
+					}
+				}
+				if has0 {
+					seen[g] = true
+					next = append(next, c07Host{g, class})
+				}
+			})
+		}
+		hosts = append(hosts, next...)
+		level = next
+	}
+	return hosts
+}
+
+// c07WritesVia: the call hands the accumulated map to an in-package helper that
+// (itself or up to two calls further down) stores into / deletes from it.
+func c07WritesVia(cb *c07Comb, call *ssa.Call, depth int) bool {
+	g := cb.inPkgHelper(call)
+	if g == nil || depth > 2 {
+		return false
+	}
+	cb.enter(g, call)
+	found := false
+	allInstrs(g, false, func(_ *ssa.Function, in ssa.Instruction) {
+		if found {
+			return
+		}
+		switch x := in.(type) {
+		case *ssa.MapUpdate:
+			if cb.classifyMap(x.Map) == 0 {
+				found = true
+			}
+		case *ssa.Call:
+			if dc, ok := isBuiltinCall(in, "delete"); ok {
+				if cb.classifyMap(dc.Args[0]) == 0 {
+					found = true
+				}
+				return
+			}
+			if c07WritesVia(cb, x, depth+1) {
+				found = true
+			}
+		}
+	})
+	return found
+}
+
+// c07OperandCalls: the receivers of the <operand>.LabelRestrictions() calls made
+// by lr and by the in-package helpers it calls (up to three calls down); a
+// receiver that is a helper's parameter is replaced by what the call hands it.
+func c07OperandCalls(lr *ssa.Function) []ssa.Value {
+	var out []ssa.Value
+	pkg := c07PkgOf(lr)
+	var visit func(fn *ssa.Function, bind map[ssa.Value]ssa.Value, depth int, stack map[*ssa.Function]bool)
+	visit = func(fn *ssa.Function, bind map[ssa.Value]ssa.Value, depth int, stack map[*ssa.Function]bool) {
+		resolve := func(v ssa.Value) ssa.Value {
+			if b, ok := bind[v]; ok {
+				return b
+			}
+			return v
+		}
+		allInstrs(fn, false, func(_ *ssa.Function, in ssa.Instruction) {
+			call, ok := in.(*ssa.Call)
+			if !ok {
+				return
+			}
+			cc := call.Common()
+			if cc.IsInvoke() {
+				if cc.Method.Name() == "LabelRestrictions" {
+					out = append(out, resolve(cc.Value))
+				}
+				return
+			}
+			g := calleeFn(cc)
+			if g == nil || g.Blocks == nil || g.Pkg != pkg || stack[g] || depth >= 3 {
+				return
+			}
+			nb := map[ssa.Value]ssa.Value{}
+			for i, a := range cc.Args {
+				if i < len(g.Params) {
+					nb[g.Params[i]] = resolve(a)
+				}
+			}
+			stack[g] = true
+			visit(g, nb, depth+1, stack)
+			delete(stack, g)
+		})
+	}
+	visit(lr, nil, 0, map[*ssa.Function]bool{lr: true})
 	return out
 }
